@@ -22,7 +22,7 @@ DW_OPTS = [[], ["--load-all-types", "--annotate"], ["--type-id-style", "hash", "
 
 
 def plan(tier):
-    return {"n": 60 if tier == "quick" else 3000, "floor": 20 if tier == "quick" else 800}
+    return {"n": 60 if tier == "quick" else 360, "floor": 20 if tier == "quick" else 96}
 
 
 def rule(tier):
